@@ -171,7 +171,15 @@ func (in *Interp) pick() bool {
 		in.finding("HANG", "deadlock@"+in.threadWhere(main), "harness main thread blocked forever: "+in.describeThreads(), in.model)
 		return false
 	}
+	// the default successor is the lowest-numbered runnable goroutine; choosing another one costs one unit of
+	// the free-switch budget when such a budget is set (delay-bounded scheduling)
+	if in.maxFree >= 0 && in.frees >= in.maxFree {
+		run = run[:1]
+	}
 	c := in.chooseFrom(run, DSched)
+	if c != run[0] {
+		in.frees++
+	}
 	in.switchTo(in.threads[c], "sched")
 	return true
 }
